@@ -185,8 +185,13 @@ func c20Run(rc *RunCtx, params any) {
 				secs, rd, cid = sw, rdC, cfg.C.CIDOf()
 				fa, ta = pair.SAddr, pair.CAddr
 			}
+			// "authorised" is the receiver's business: it installs the next read epoch when it
+			// processes the peer's KeyUpdate, which may be before the sender (still waiting for
+			// the ACK) starts using it. The forgery therefore targets the epoch after the newest
+			// one the receiver holds read keys for.
+			_, recvRead := dtls.VerifTrafficSecrets(pair.ConnOf(map[string]string{"c": "s", "s": "c"}[from]))
 			top := uint16(0)
-			for e := range secs {
+			for e := range recvRead {
 				if e > top {
 					top = e
 				}
@@ -194,6 +199,7 @@ func c20Run(rc *RunCtx, params any) {
 			if top < 3 {
 				continue
 			}
+			secs = recvRead
 			next := NextSecret13(suite, secs[top])
 			keys, _ := NewKeys13(suite, next)
 			pl := []byte("forged-under-an-epoch-nobody-authorised")
@@ -202,7 +208,7 @@ func c20Run(rc *RunCtx, params any) {
 			s.Settle()
 			for _, g := range rd.Got[before:] {
 				if bytes.Equal(g, pl) {
-					rc.Violate("future-epoch-accepted", "a record protected under epoch %d, which the sender has not started (its current sending epoch is %d), was delivered by Read", top+1, top)
+					rc.Violate("future-epoch-accepted", "a record protected under epoch %d was delivered by Read although the newest epoch the receiver had been authorised to read (by a KeyUpdate it processed) is %d", top+1, top)
 
 					return
 				}
